@@ -159,12 +159,21 @@ def _world(perm_f, perm_s, e1, rm0, rm1, c1):
     return sim, env, rec
 
 
-def h_step(pf: int, ps: int, e1: float, rm0: int, rm1: int) -> bool:
+E1_LEVELS = (2.0, 8.0, 40.0)  # v1: too low to be dispatched (must charge) / below the soft threshold / plenty
+
+
+def h_step(pf: int, ps: int, ei: int, rm0: int, rm1: int) -> bool:
     """
-    pre: 0 <= pf <= 1 and 0 <= ps <= 1 and 0 <= rm0 <= 1 and 0 <= rm1 <= 1 and 1 <= e1 <= 50
+    pre: 0 <= pf <= 1 and 0 <= ps <= 1 and 0 <= rm0 <= 1 and 0 <= rm1 <= 1 and 0 <= ei <= 2
     pre: pf + ps >= 1
     post: _
     """
+    e1 = None
+    for k in range(3):
+        if ei == k:
+            e1 = E1_LEVELS[k]
+    if e1 is None:
+        return True
     cell1 = 0 if CASE % 2 == 0 else 3
     outs = []
     for (a, b) in (((0, 1), (0, 1)), (perm_of(pf, 2), perm_of(ps, 2))):
@@ -184,6 +193,9 @@ def h_step(pf: int, ps: int, e1: float, rm0: int, rm1: int) -> bool:
         a, b = s_a.stations[sid], s_b.stations[sid]
         if not (I.deq(I.snapshot(a.state), I.snapshot(b.state)) and a.balance == b.balance):
             return False
-    ev_a = sorted((r.report_type.name, repr(sorted((k, str(v)) for k, v in r.report.items() if k not in ("session_id",)))) for r in outs[0][1].reports)
-    ev_b = sorted((r.report_type.name, repr(sorted((k, str(v)) for k, v in r.report.items() if k not in ("session_id",)))) for r in outs[1][1].reports)
-    return ev_a == ev_b
+    def _evs(rec):
+        # (no repr()/str() under tracing: compare report contents structurally, session ids ignored)
+        rs = sorted(rec.reports, key=lambda r: (r.report_type.name, r.report.get("vehicle_id") or r.report.get("request_id") or r.report.get("station_id") or ""))
+        return tuple((r.report_type.name, I.snapshot({k: v for k, v in r.report.items() if k != "session_id"}, True)) for r in rs)
+
+    return I.deq(_evs(outs[0][1]), _evs(outs[1][1]))
